@@ -1,12 +1,295 @@
 /-
-C20 — Crash-restart neither loses nor duplicates work (work in progress: statements follow).
+C20 — Crash-restart neither loses nor duplicates work.
+
+Statements over the `Sched3Crash` model: the scheduler of `Sched2` with the private database AS COMMITTED kept apart
+from the memory of the process, commit boundaries exactly where the code has them, and kill points (`crash`: between
+two ops; `loopCrash k`: at the k-th commit boundary of a main loop, or anywhere inside that transaction).
+Helper lemmas: `Sched3CrashLemmas` (one lemma per primitive, lifted over all op lists with `run_inv`); the closed
+job environment of the run-level statements: `Sched3CrashEnv`.
+
+What the property text claims and what is delivered (details in the doc-strings):
+* kill points reduce to commit boundaries, a dead process commits nothing, a restart reads nothing but the
+  committed database, between ops nothing of a pool-table write is pending — PROVED for all graphs and op lists;
+* `no_loss` — FALSE on the code as found (`no_loss_counterexample`, `lost_before_first_loop`): the early commits
+  write `task_states` rows but not the `task_pool` table; the mechanism is proved in general (`stranded_is_lost`);
+  with the repair (behaviour flags up) it is proved for the witness workflows and every single kill point of their
+  runs (`no_loss_repaired_bounded`), not in general;
+* `no_rerun` (no instance is run again) — FALSE on the code as found by the same window (`no_rerun_counterexample`),
+  general mechanism `finished_not_respawned`, repaired: bounded as above;
+* `no_dup_launch` — FALSE by design, before and after the repair (`no_dup_launch_counterexample`): a task killed in
+  job preparation is prepared again under the same submit number; what holds is `no_dup_launch_partial`.
 -/
-import CylcModel.Sched3Crash
+import CylcModel.Sched3CrashLemmas
+import CylcModel.Sched3CrashEnv
+import CylcModel.Generated.CrashFlags
 namespace CylcModel.C20
 open CylcModel.Sched3Crash
 
-/-- a process that has died commits nothing more -/
-theorem dead_commit (s : State) (h : s.dead = true) : commit s = s := by
-  unfold commit; simp [h]
+/-! ### kill points, transactions, and what survives -/
+
+/-- **A commit is all or nothing**: `process_queued_ops` either leaves the committed database as it was (the
+process is dead, or dies at this very boundary) or applies everything that was queued. -/
+theorem commit_all_or_nothing (s : State) :
+    (commit s).cdb = s.cdb ∨ ((commit s).cdb = applyQ s.cdb s.q ∧ (commit s).q = {}) := by
+  unfold commit
+  split
+  · exact Or.inl rfl
+  · split
+    · exact Or.inl rfl
+    · exact Or.inr ⟨rfl, rfl⟩
+    · exact Or.inr ⟨rfl, rfl⟩
+
+/-- **Statement-level kill points reduce to commit boundaries**: a process that dies at a commit boundary — before
+the transaction starts or anywhere inside it (C21: an interrupted transaction leaves no trace) — leaves the
+committed database exactly as it was at the boundary, and is dead. -/
+theorem kill_at_boundary (s : State) (h : s.dead = false) :
+    (commit { s with fuse := some 0 }).dead = true ∧ (commit { s with fuse := some 0 }).cdb = s.cdb := by
+  unfold commit
+  simp [h]
+
+/-- **A dead process commits nothing**: whatever the rest of the main loop would have done, the database stays as
+it was at the death (so the model may let the loop run on: only the database is read afterwards). -/
+theorem dead_commits_nothing (g : Graph) (s : State) (h : s.dead = true) :
+    (mainLoop g s).dead = true ∧ (mainLoop g s).cdb = s.cdb :=
+  dead_dstep (dstep_mainLoop g s) h
+
+/-- **A restart reads nothing but the committed database**: two schedulers that die with the same committed
+database restart into the same state, whatever was in their memory (pool, queued operations, message queue,
+holds, stop requests).  (`launched` / `ncommit`: what the outside world had seen of the current op.) -/
+theorem crash_reads_only_database (g : Graph) (s s' : State)
+    (hd : s.cdb = s'.cdb) (hl : s.launched = s'.launched) (hn : s.ncommit = s'.ncommit) :
+    crashRestart g s = crashRestart g s' := by
+  unfold crashRestart startFrom loadDb
+  simp only [hd, hl, hn]
+
+/-- **Between ops** — in every state of every run, for all instance graphs and all op lists including kill points,
+clean restarts and commands — the scheduler is alive, no fuse burns and no write of the task-pool table is left
+queued: the `task_pool` table is only ever written in the same transaction in which it was queued. -/
+theorem between_ops_live (g : Graph) (ops : List Op) : ∀ s ∈ run g ops, Live s := live_run g ops
+
+/-! ### what a restart restores -/
+
+/-- **The restored pool comes from the pool table**: every instance in the pool of the restarted scheduler is
+listed in the committed `task_pool` table and has a committed `task_states` row. -/
+theorem restart_pool_from_table (g : Graph) (s : State) :
+    ∀ k ∈ keys (crashRestart g s),
+      k ∈ s.cdb.pool.map (fun x => (x.pt, x.name)) ∧ ∃ r ∈ s.cdb.rows, r.isKey k.1 k.2 = true := by
+  intro k hk
+  exact mem_keys_startFrom g s k hk
+
+/-- **Status and submit number as loaded**: a task listed as preparing in the pool table comes back waiting with
+the recorded submit number minus one (to be prepared again under the same number); every other task comes back
+with its recorded status and submit number. -/
+theorem restart_submit_num (g : Graph) (s : State) :
+    ∀ y ∈ (loadDb g s).pool, ∃ x ∈ s.cdb.pool, ∃ r ∈ s.cdb.rows, r.isKey x.pt x.name = true ∧
+      y.pt = x.pt ∧ y.name = x.name ∧
+      y.status = (if x.status == .preparing then Status.waiting else x.status) ∧
+      y.submitNum = (if x.status == .preparing then r.submitNum - 1 else r.submitNum) := by
+  intro y hy
+  unfold loadDb at hy
+  simp only at hy
+  obtain ⟨x, hx, hxy⟩ := List.mem_filterMap.mp hy
+  unfold restoreProxy at hxy
+  split at hxy
+  · exact absurd hxy (by simp)
+  · rename_i r hr
+    simp only [Option.some.injEq] at hxy
+    subst hxy
+    exact ⟨x, hx, r, List.mem_of_find?_eq_some hr, by simpa using List.find?_some hr, rfl, rfl, rfl, rfl⟩
+
+/-- **`no_dup_launch`, what holds**: unless the pool table lists the task as preparing, the restarted scheduler
+continues from the submit number the database has recorded — the next job of the task gets a number the database
+has not seen.  (A job is launched under `submitNum + 1`, `release_and_submit`.) -/
+theorem no_dup_launch_partial (g : Graph) (s : State) :
+    ∀ y ∈ (loadDb g s).pool, ∃ x ∈ s.cdb.pool, ∃ r ∈ s.cdb.rows, r.isKey x.pt x.name = true ∧
+      y.pt = x.pt ∧ y.name = x.name ∧ (x.status ≠ .preparing → y.submitNum = r.submitNum) := by
+  intro y hy
+  obtain ⟨x, hx, r, hr, hk, h1, h2, _, h4⟩ := restart_submit_num g s y hy
+  refine ⟨x, hx, r, hr, hk, h1, h2, ?_⟩
+  intro hne
+  rw [h4]
+  have : (x.status == Status.preparing) = false := by
+    cases hs : x.status <;> simp_all
+  simp [this]
+
+/-! ### the loss mechanism, in general -/
+
+/-- **How work is lost** (code as found): an instance with a committed `task_states` row that has no completed
+outputs, and that the committed `task_pool` table does not list, is not in the pool of the restarted scheduler
+and is refused by `spawn_task` ("task was removed") whenever a parent's output asks for it — it never runs.
+Such rows are committed by the early commits (`remove`, absolute outputs, suicides, start-up) for tasks spawned
+since the pool table was last written. -/
+theorem stranded_is_lost (g : Graph) (hf : g.poolAtStart = false) (s : State) (p : Int) (n : String) (r : Row)
+    (hr : histOf s p n = some r) (ho : r.outs = []) (hp : (p, n) ∉ s.cdb.pool.map (fun x => (x.pt, x.name))) :
+    (p, n) ∉ keys (crashRestart g s) ∧ (spawnTask g (crashRestart g s) n p).2 = none := by
+  constructor
+  · intro hk
+    exact hp (mem_keys_startFrom g s (p, n) hk).1
+  · apply spawnTask_blocked g _ n p r _ ho
+    unfold histOf crashRestart
+    simp only
+    rw [rows_startFrom g s hf]
+    exact hr
+
+/-- **Finished work is not spawned again**: an instance whose committed row has a final status and complete
+outputs is refused by `spawn_task`, before and after any restart. -/
+theorem finished_not_respawned (g : Graph) (s : State) (n : String) (p : Int) (r : Row) (t : TaskDefn)
+    (hr : histOf s p n = some r) (hfin : r.status.isFinal = true) (ht : g.task? n = some t)
+    (hc : isComplete t r.outs = true) : (spawnTask g s n p).2 = none :=
+  spawnTask_finished g s n p r t hr hfin ht hc
+
+/-! ### run-level statements over the closed job environment
+
+`closedRun g kills`: every job launched is submitted, starts and succeeds, its reports arrive before the next main
+loop; round `i` is an ordinary main loop, or the process dies right before it, or inside it at a commit boundary; a
+restart is followed by the restart poll; jobs launched before a death keep reporting. -/
+
+/-- the behaviour flags of a graph set to `f` (false: code as found, true: repaired) -/
+def flagged (f : Bool) (g : Graph) : Graph :=
+  { g with poolAtRemove := f, poolAtAbs := f, poolAtSuicide := f, poolAtStart := f }
+
+/-- the killed-and-restarted run launches the same task instances as the uninterrupted run of as many rounds -/
+def NoLoss (g : Graph) (kills : List Kill) : Prop :=
+  sameSet (launchedKeys (closedRun g kills)) (launchedKeys (closedRun g (quiet kills.length))) = true
+
+/-- no instance that the database has recorded with a final status is launched again -/
+def NoRerun (g : Graph) (kills : List Kill) : Prop := (closedRun g kills).reruns = []
+
+/-- no two launches carry the same (point, name, submit number) -/
+def NoDupLaunch (g : Graph) (kills : List Kill) : Prop := (closedRun g kills).launches.Nodup
+
+instance (g : Graph) (kills : List Kill) : Decidable (NoLoss g kills) := by unfold NoLoss; infer_instance
+instance (g : Graph) (kills : List Kill) : Decidable (NoRerun g kills) := by unfold NoRerun; infer_instance
+instance (g : Graph) (kills : List Kill) : Decidable (NoDupLaunch g kills) := by unfold NoDupLaunch; infer_instance
+
+/-- the property text, per value of the behaviour flags -/
+def no_loss_full (f : Bool) : Prop := ∀ (g : Graph) (kills : List Kill), NoLoss (flagged f g) kills
+def no_rerun_full (f : Bool) : Prop := ∀ (g : Graph) (kills : List Kill), NoRerun (flagged f g) kills
+def no_dup_launch_full (f : Bool) : Prop := ∀ (g : Graph) (kills : List Kill), NoDupLaunch (flagged f g) kills
+
+def stdOuts : List OutDef :=
+  [⟨"submitted", "submitted"⟩, ⟨"started", "started"⟩, ⟨"succeeded", "succeeded"⟩, ⟨"failed", "failed"⟩]
+
+/-- `a => b` on one cycle point -/
+def exAB : Graph :=
+  { icp := 1, fcp := 1, start := 1, runahead := 1, seqs := [[1]], stopPoint := some 1,
+    tasks := [
+      { name := "a",
+        insts := [(1, { pre := [], sui := [], children := [("succeeded", [⟨"b", 1, false⟩])], nextParentless := none })],
+        firstParentless := some 1, completion := CE.var "succeeded", outputs := stdOuts },
+      { name := "b",
+        insts := [(1, { pre := [{ atoms := [(⟨1, "a", "succeeded"⟩, false)], expr := none }], sui := [], children := [],
+                        nextParentless := none })],
+        firstParentless := none, completion := CE.var "succeeded", outputs := stdOuts }] }
+
+/-- `a[-P1] => a => b` on cycle points 1..3, runahead limit P1 -/
+def exCyc : Graph :=
+  let a (p : Int) (last : Bool) : Int × InstDef :=
+    (p, { pre := if p == 1 then [] else [{ atoms := [(⟨p - 1, "a", "succeeded"⟩, false)], expr := none }], sui := [],
+          children := [("succeeded", [⟨"b", p, false⟩] ++ (if last then [] else [⟨"a", p + 1, false⟩]))],
+          nextParentless := none })
+  let b (p : Int) : Int × InstDef :=
+    (p, { pre := [{ atoms := [(⟨p, "a", "succeeded"⟩, false)], expr := none }], sui := [], children := [],
+          nextParentless := none })
+  { icp := 1, fcp := 3, start := 1, runahead := 1, seqs := [[1, 2, 3]], stopPoint := some 3,
+    tasks := [
+      { name := "a", insts := [a 1 false, a 2 false, a 3 true], firstParentless := some 1,
+        completion := CE.var "succeeded", outputs := stdOuts },
+      { name := "b", insts := [b 1, b 2, b 3], firstParentless := none,
+        completion := CE.var "succeeded", outputs := stdOuts }] }
+
+-- the uninterrupted runs are not trivial: everything runs, once
+example : (closedRun (flagged false exAB) (quiet 4)).launches = [(1, "a", 1), (1, "b", 1)] := by decide
+example : launchedKeys (closedRun (flagged false exCyc) (quiet 8)) =
+    [(1, "a"), (1, "b"), (2, "a"), (2, "b"), (3, "a"), (3, "b")] := by decide
+
+/-- **`no_loss` is false on the code as found**: `a => b`; the main loop that processes `a:succeeded` commits in
+`remove(a)` — the `task_states` row of the freshly spawned `b` included — and dies before the end-of-loop commit
+writes `b` into `task_pool`.  The restart reloads `a` (still listed as preparing: it is run again), the restart
+poll re-delivers its success, `spawn_task(b)` finds a row without outputs: `b` never runs. -/
+theorem no_loss_counterexample : ¬ no_loss_full false := by
+  intro h
+  have h1 := h exAB [.none, .inLoop 1, .none, .none, .none]
+  revert h1
+  decide
+
+/-- ... and a new run killed before its first main loop completes restarts with an empty pool: nothing ever runs. -/
+theorem lost_before_first_loop : ¬ NoLoss (flagged false exAB) [.before, .none, .none, .none] := by decide
+
+/-- **`no_rerun` is false on the code as found** (same window): `a`, recorded as succeeded, is run again. -/
+theorem no_rerun_counterexample : ¬ no_rerun_full false := by
+  intro h
+  have h1 := h exAB [.none, .inLoop 1, .none, .none, .none]
+  revert h1
+  decide
+
+/-- **`no_dup_launch` is false by design**, with or without the repair: killed while `a` is in job preparation (the
+database has not seen its job submitted), the restart prepares it again under the same submit number. -/
+theorem no_dup_launch_counterexample : ¬ no_dup_launch_full false ∧ ¬ no_dup_launch_full true := by
+  constructor
+  · intro h
+    have h1 := h exAB [.none, .before, .none, .none]
+    revert h1
+    decide
+  · intro h
+    have h1 := h exAB [.none, .before, .none, .none]
+    revert h1
+    decide
+
+/-- the scheduler of `no_loss_counterexample` at the moment of its death (the main loop has run on in the model) -/
+def exDead : State :=
+  mainLoop (flagged false exAB)
+    { (clearOp (applyOps (flagged false exAB) (init (flagged false exAB))
+        [.loop, .subres 1 "a" true 1, .msg 1 "a" 1 "started", .msg 1 "a" 1 "succeeded"])) with fuse := some 1 }
+
+-- the hypotheses of `dead_commits_nothing`, `stranded_is_lost` and `finished_not_respawned` are met there: the
+-- process is dead; `b` has a committed row without outputs and is not in the committed pool table (which still
+-- lists `a` as preparing); `a` has a committed row that says succeeded, with complete outputs
+example :
+    exDead.dead = true ∧
+    (histOf exDead 1 "b").map (fun r => (r.status, r.outs)) = some (.waiting, []) ∧
+    (1, "b") ∉ exDead.cdb.pool.map (fun x => (x.pt, x.name)) ∧
+    exDead.cdb.pool.map (fun x => (x.pt, x.name, x.status)) = [(1, "a", .preparing)] ∧
+    (histOf exDead 1 "a").map (fun r => (r.status, r.outs)) =
+      some (.succeeded, ["submitted", "started", "succeeded"]) := by decide
+
+-- ... and the restart puts `a` back as a waiting task under submit number 0 (`restart_submit_num`), `b` nowhere
+example :
+    (crashRestart (flagged false exAB) exDead).pool.map (fun x => (x.pt, x.name, x.status, x.submitNum)) =
+      [(1, "a", .waiting, 0)] := by decide
+
+/-- every way of killing the scheduler once in `n` rounds: in round `i`, between ops or at commit boundary 0..2 -/
+def singleKills (n : Nat) : List (List Kill) :=
+  (List.range n).flatMap fun i =>
+    [Kill.before, Kill.inLoop 0, Kill.inLoop 1, Kill.inLoop 2].map fun k =>
+      (List.replicate i Kill.none) ++ [k] ++ List.replicate (n - i - 1) Kill.none
+
+/-- **With the repair** (every early commit writes the pool table along): for the witness workflows, whatever
+single kill point of the run is chosen — any round, between ops or at any commit boundary of the main loop — the
+restarted run launches exactly the instances of the uninterrupted run and runs nothing again that the database
+had recorded as finished.  (Bounded: these workflows, one kill per run; the general statement is not proved.) -/
+theorem no_loss_repaired_bounded :
+    (∀ kills ∈ singleKills 6, NoLoss (flagged true exAB) kills ∧ NoRerun (flagged true exAB) kills) ∧
+    (∀ kills ∈ singleKills 9, NoLoss (flagged true exCyc) kills ∧ NoRerun (flagged true exCyc) kills) := by
+  constructor <;> decide
+
+/-- the same kill points on the code as found: some of them lose work -/
+theorem loss_found_bounded :
+    ¬ (∀ kills ∈ singleKills 9, NoLoss (flagged false exCyc) kills) := by decide
+
+/-- **Tie to the live code** (the flags are probed from the running code on every check): the witness run of
+`no_loss_counterexample` keeps `b` exactly when `TaskPool.remove` writes the pool table with its commit ... -/
+theorem lost_child_live :
+    NoLoss { exAB with poolAtRemove := CrashFlags.poolAtRemove } [.none, .inLoop 1, .none, .none, .none] ↔
+      CrashFlags.poolAtRemove = true := by
+  generalize CrashFlags.poolAtRemove = f
+  cases f <;> decide
+
+/-- ... and a run killed before its first main loop restarts with its tasks exactly when start-up writes it. -/
+theorem lost_at_start_live :
+    NoLoss { exAB with poolAtStart := CrashFlags.poolAtStart } [.before, .none, .none, .none] ↔
+      CrashFlags.poolAtStart = true := by
+  generalize CrashFlags.poolAtStart = f
+  cases f <;> decide
 
 end CylcModel.C20
